@@ -97,6 +97,9 @@ impl WX for u128 {
     }
 }
 
+/// Set while a seed state is observed: the (costlier) iterator-protocol observations run there only.
+static PROTO: std::sync::atomic::AtomicBool = std::sync::atomic::AtomicBool::new(false);
+
 #[derive(Clone)]
 struct St<W> {
     words: Vec<W>,
@@ -363,6 +366,20 @@ fn observe<W: WX>(prop: &str, s: &St<W>, viol: &mut Vec<Viol>) {
         let it: Vec<W> = (&b).into_iter().collect();
         if &it != m {
             bad!("BitFieldVec::into_iter", "(&b).into_iter() differs");
+        }
+        if PROTO.load(std::sync::atomic::Ordering::Relaxed) {
+            // the iterator protocol beyond a plain pass (nth / skip / step_by / count / last / size_hint)
+            if let Some(w) = vh::models::iter_protocol(|| b.iter(), m) {
+                bad!("BitFieldVec::iter", "{}", w);
+            }
+            if let Some(w) = vh::models::iter_protocol(|| (&b).into_iter(), m) {
+                bad!("BitFieldVec::into_iter", "{}", w);
+            }
+            for k in [0usize, 1.min(n), n / 2, n] {
+                if let Some(w) = vh::models::iter_protocol(|| b.iter_from(k), &m[k.min(n)..]) {
+                    bad!("BitFieldVec::iter_from", "from {}: {}", k, w);
+                }
+            }
         }
         for j in 0..=n {
             let mut it = b.iter_from(j);
@@ -754,7 +771,9 @@ fn run<W: WX>(ctx: &mut Ctx, prop: &str, widths: &[usize], depth: u32) {
         for (name, seed) in sd {
             if ctx.case(|| format!("BitFieldVec<{}> width={w} seed={name} first_op=<none>", W::NAME)) {
                 let mut viol = vec![];
+                PROTO.store(true, std::sync::atomic::Ordering::Relaxed);
                 observe(prop, &seed, &mut viol);
+                PROTO.store(false, std::sync::atomic::Ordering::Relaxed);
                 ctx.states += 1;
                 for (k, x) in viol {
                     ctx.violation(&k, format!("{x}; in seed state"));
